@@ -161,7 +161,7 @@ End StepA.
 
 Lemma decA_unfold : forall e wildcard excl ignore parseF unspec f top t g tr,
   decA e wildcard excl ignore parseF unspec (S f) top t g tr
-  = stepA e wildcard excl ignore parseF unspec (decJ e wildcard excl ignore parseF f)
+  = stepA e wildcard excl ignore parseF unspec (djmix e wildcard excl ignore parseF f)
       (decA e wildcard excl ignore parseF unspec f) top t g tr.
 Proof. intros. reflexivity. Qed.
 
@@ -492,7 +492,8 @@ Section Agree.
     Variable DJ : bool -> ty -> jdoc -> tracker -> res (value * tracker).
     Variable DA : bool -> ty -> gval -> tracker -> res (value * tracker).
     Variable U : ty -> jdoc -> Prop.
-    Hypothesis HD : forall top t x tr, U t x -> DA top t (of_jdoc x) tr = DJ top t x tr.
+    (* only the children ([top = false]): the default literals go through DJ true on both sides *)
+    Hypothesis HD : forall t x tr, U t x -> DA false t (of_jdoc x) tr = DJ false t x tr.
 
     Notation ofp := (fun kx : bytes * jdoc => match kx with (k, x) => (k, of_jdoc x) end).
 
@@ -539,7 +540,7 @@ Section Agree.
       goAarr DA t' (map of_jdoc l) i acc tr = goJarr DJ t' l i acc tr.
     Proof.
       intros t'. induction l as [|x r IH]; intros i acc tr Hl; [reflexivity|].
-      inversion Hl as [|? ? Hx Hr]; subst. cbn [map goAarr goJarr]. rewrite (HD false t' x _ Hx).
+      inversion Hl as [|? ? Hx Hr]; subst. cbn [map goAarr goJarr]. rewrite (HD t' x _ Hx).
       destruct (DJ false t' x (enter_array i tr)) as [[v tr']| |]; cbn [bind]; try reflexivity. apply IH. exact Hr.
     Qed.
 
@@ -552,22 +553,22 @@ Section Agree.
       destruct x as [|b|txt|s|items|es]; cbn [AnyReader.of_jdoc].
       - apply IH. exact Hr.
       - change (GBool b) with (of_jdoc (JBool b)). destruct (enter_map wildcard excl ignore k tr); cbn [bind]; try reflexivity.
-        rewrite (HD false t' (JBool b) _ (Hx eq_refl)).
+        rewrite (HD t' (JBool b) _ (Hx eq_refl)).
         destruct (DJ false t' (JBool b) a) as [[v tr2]| |]; cbn [bind]; try reflexivity. apply IH. exact Hr.
-      - pose proof (HD false t' (JNum txt)) as HDx. cbn [AnyReader.of_jdoc] in HDx.
+      - pose proof (HD t' (JNum txt)) as HDx. cbn [AnyReader.of_jdoc] in HDx.
         destruct (enter_map wildcard excl ignore k tr); destruct (parseF 0 txt); cbn [bind]; try reflexivity;
           rewrite (HDx _ (Hx eq_refl));
           (destruct (DJ false t' (JNum txt) a) as [[v tr2]| |]; cbn [bind]; try reflexivity; apply IH; exact Hr).
       - change (GStr s) with (of_jdoc (JStr s)). destruct (enter_map wildcard excl ignore k tr); cbn [bind]; try reflexivity.
-        rewrite (HD false t' (JStr s) _ (Hx eq_refl)).
+        rewrite (HD t' (JStr s) _ (Hx eq_refl)).
         destruct (DJ false t' (JStr s) a) as [[v tr2]| |]; cbn [bind]; try reflexivity. apply IH. exact Hr.
       - change (GArr (map of_jdoc items)) with (of_jdoc (JArr items)).
         destruct (enter_map wildcard excl ignore k tr); cbn [bind]; try reflexivity.
-        rewrite (HD false t' (JArr items) _ (Hx eq_refl)).
+        rewrite (HD t' (JArr items) _ (Hx eq_refl)).
         destruct (DJ false t' (JArr items) a) as [[v tr2]| |]; cbn [bind]; try reflexivity. apply IH. exact Hr.
       - change (GMap (map ofp es)) with (of_jdoc (JObj es)).
         destruct (enter_map wildcard excl ignore k tr); cbn [bind]; try reflexivity.
-        rewrite (HD false t' (JObj es) _ (Hx eq_refl)).
+        rewrite (HD t' (JObj es) _ (Hx eq_refl)).
         destruct (DJ false t' (JObj es) a) as [[v tr2]| |]; cbn [bind]; try reflexivity. apply IH. exact Hr.
     Qed.
 
@@ -609,7 +610,7 @@ Section Agree.
         destruct wasSet; [reflexivity|].
         destruct (index_of k (map fst ms) 0) as [j|] eqn:Ej; [|reflexivity].
         destruct (nth_error ms j) as [[a mt]|] eqn:Em; [|reflexivity].
-        rewrite (HD false mt x tr1 (Hx eq_refl j a mt eq_refl Em)).
+        rewrite (HD mt x tr1 (Hx eq_refl j a mt eq_refl Em)).
         destruct (DJ false mt x tr1) as [[v tr2]| |]; cbn [bind]; try reflexivity.
         apply IH. exact Hr.
     Qed.
@@ -657,7 +658,7 @@ Section Agree.
   Proof.
     induction fuel as [|f IH]; intros top t d tr H; [reflexivity|].
     rewrite decA_unfold, decJ_unfold. apply (stepA_agree _ _ (untyped_exact f)); [|exact H].
-    intros top0 t0 x tr0 Hx. apply IH. exact Hx.
+    intros t0 x tr0 Hx. rewrite djmix_false. apply IH. exact Hx.
   Qed.
 
   Corollary decode_any_agrees : forall fuel t d,
